@@ -222,7 +222,9 @@ class Run:
     def rpoe(self, rm):
         import tempfile, os
         if rm == 0:     # the default remover on a real file
-            fd, path = tempfile.mkstemp(prefix='C09'); os.close(fd)
+            d = os.path.join(os.path.dirname(os.path.abspath(__file__)), '..', '..', 'build')
+            os.makedirs(d, exist_ok=True)
+            fd, path = tempfile.mkstemp(prefix='C09path', dir=d); os.close(fd)
             self.path = path
             return self.fu.remove_path_on_error(path)
         self.path = 'C09-no-such-path'
